@@ -1,6 +1,7 @@
 // C33 — duplicate cache (TimeCache): an id is reported as seen from its FIRST
 // insertion until its ttl has passed, and is not refreshed by re-insertion.
-// FnvHashMap -> dependency shim; keys are u8 (the cache is generic in the key).
+// FnvHashMap and VecDeque -> dependency shims (retargeted imports); keys are u8 (the
+// cache is generic in the key).
 // Representation invariant wf: the map entries and the list elements are in
 // bijection (same key, same expiry), the list is sorted by expiry, and every
 // expiry is at most now + ttl (entries were inserted in the past).
@@ -19,6 +20,12 @@ struct St {
 
 /// any wf state with exactly `n` (a CONCRETE number, 0..=2) cached ids
 fn any_state(n: usize, now: (u64, u32), ttl: Duration) -> St {
+    any_state_g(n, now, ttl, false)
+}
+
+/// `whole_secs` (a CONCRETE flag): expiries are whole seconds, so every Duration::new
+/// below has a constant nanosecond part (no div/mod circuits for the solver)
+fn any_state_g(n: usize, now: (u64, u32), ttl: Duration, whole_secs: bool) -> St {
     // built field by field: assigning a pre-sized VecDeque over the one made by new() drops
     // the empty one, which Kani 0.68 reports as a bogus dealloc failure
     let mut c: DuplicateCache<u8> = DuplicateCache(TimeCache {
@@ -32,7 +39,13 @@ fn any_state(n: usize, now: (u64, u32), ttl: Duration) -> St {
     let mut i = 0;
     while i < 2 {
         if i < n {
-            let (s, ns, inst) = clock::any_instant(HORIZON);
+            let (s, ns, inst) = if whole_secs {
+                let s: u64 = kani::any();
+                kani::assume(s <= HORIZON);
+                (s, 0u32, clock::at(s, 0))
+            } else {
+                clock::any_instant(HORIZON)
+            };
             e[i] = (s, ns);
             // inserted in the past: expiry <= now + ttl
             kani::assume(Duration::new(s, ns) <= Duration::new(now.0, now.1) + ttl);
@@ -75,11 +88,15 @@ fn wf(c: &DuplicateCache<u8>) -> bool {
 }
 
 fn insert_contract(n: usize) {
-    let now = clock::set_any(HORIZON);
+    // whole seconds throughout (clock, expiries, ttl): stated in the bound
+    let now_s: u64 = kani::any();
+    kani::assume(now_s <= HORIZON);
+    clock::set(now_s, 0);
+    let now = (now_s, 0u32);
     let ttl_s: u64 = kani::any();
     kani::assume(ttl_s <= HORIZON);
-    let ttl = Duration::new(ttl_s, kani::any::<u32>() % 1_000_000_000);
-    let mut st = any_state(n, now, ttl);
+    let ttl = Duration::new(ttl_s, 0);
+    let mut st = any_state_g(n, now, ttl, true);
     let key: u8 = kani::any();
     let before = expiry_of(&st.cache, key);
     let other: u8 = kani::any();
@@ -121,9 +138,17 @@ tracing_off! {
 #[kani::proof]
 #[kani::unwind(6)]
 #[kani::stub(std::time::Instant::now, clock::now)]
-fn duplicate_cache_insert_contract_small() {
-    insert_contract(0);
+fn duplicate_cache_insert_contract_n1() {
     insert_contract(1);
+}
+}
+
+tracing_off! {
+#[kani::proof]
+#[kani::unwind(6)]
+#[kani::stub(std::time::Instant::now, clock::now)]
+fn duplicate_cache_insert_contract_n0() {
+    insert_contract(0);
 }
 }
 
@@ -149,6 +174,32 @@ fn duplicate_cache_expiry_contract() {
         }
         i += 1;
     }
+    std::mem::forget(st);
+}
+}
+
+/// `contains` itself: an id whose ttl has passed is no longer reported as seen, also when
+/// nothing was inserted in between (statement: "seen from its first insertion UNTIL its
+/// time-to-live has passed").  `now` is the harness clock; `contains` never reads a clock.
+tracing_off! {
+#[kani::proof]
+#[kani::unwind(6)]
+#[kani::stub(std::time::Instant::now, clock::now)]
+fn duplicate_cache_contains_forgets_after_ttl() {
+    let now = clock::set_any(HORIZON);
+    let ttl_s: u64 = kani::any();
+    kani::assume(ttl_s <= HORIZON);
+    let ttl = Duration::new(ttl_s, 0);
+    let st = any_state(1, now, ttl);
+    let live = st.e[0] > now;
+    kani::cover!(live);
+    kani::cover!(!live);
+    let seen = st.cache.contains(&st.k[0]);
+    assert!(!live || seen); // still within its ttl: seen
+    kani::assert(
+        live || !seen,
+        "C33: contains() reports an id as seen although its time-to-live has passed (expiry is lazy: only insert() purges)",
+    );
     std::mem::forget(st);
 }
 }
